@@ -62,7 +62,7 @@ def programs(tier: str):
                     yield {"d": d, "kind": kind, "tc": tc, "batch": batch}
     # the wrapped function is itself a wrapper object (another timeout with a long deadline, a
     # throttle that never throttles): the outer deadline still applies
-    for inner in ("timeout10", "throttle"):
+    for inner in ("timeout10", "throttle", "attrs"):
         for d in (1, 3):
             for kind in ("value", "exc", "ignore1"):
                 for tc in (None, 1):
@@ -169,6 +169,9 @@ def execute(program, ch: Chooser) -> Result:  # noqa: C901, PLR0912, PLR0915
 
         if program.get("inner") == "timeout10":
             fn = timeout(10.0)(fn)
+        elif program.get("inner") == "attrs":
+            fn._timeout = 99.0  # an attribute of the wrapped function named like the wrapper's own
+            fn._function = None
         elif program.get("inner") == "throttle":
             from haiway.helpers.throttling import throttle
 
@@ -263,7 +266,7 @@ def execute(program, ch: Chooser) -> Result:  # noqa: C901, PLR0912, PLR0915
                     )
         if st["started"] and not st["ended"] and not hang:
             viols.append(viol("nothing-running", kind, "function ended at quiescence", dict(st)))
-        if leftover and not hang and not program.get("inner"):
+        if leftover and not hang and program.get("inner") in (None, "attrs"):
             viols.append(
                 viol("nothing-running", f"timer-left-scheduled/{kind}", "no timer of the wrapper pending once call and function are over", f"{len(leftover)} timer(s) due at {[h._when - START for h in leftover]}")
             )
